@@ -291,19 +291,14 @@ func vjRun(nsub, nmsg, nshut int, cancel bool, clientFaults bool, replayer int, 
 			s.env.mu.Unlock()
 			s.env.add(vjEvent{kind: vjSubReturn, i: i, m: -1, err: err})
 		})
-		if cancel {
-			// Cancellation only matters once Subscribe waits on ctx.Done(): the cancelling
-			// goroutine is started at that moment (a cancellation requested earlier commutes
-			// with everything up to there, and requesting it as late as possible makes the
-			// antecedent "published before the cancellation was requested" as strong as it gets).
-			s.ctxs[i].onDone = func() {
-				verifGo(func() {
-					// the request is the moment the context's channel is closed (the log entry is
-					// written in the same atomic step, before the subscriber can react)
-					s.ctxs[i].cancel()
-					s.env.add(vjEvent{kind: vjCancelReq, i: i, m: -1})
-				})
-			}
+		if cancel && i < verifParam("CANCELN", 99) {
+			// the cancelling goroutine: the request is the moment the context's channel is
+			// closed (the log entry is written in the same atomic step, before the subscriber
+			// can react); where it falls relative to everything else is up to the scheduler
+			verifGo(func() {
+				s.ctxs[i].cancel()
+				s.env.add(vjEvent{kind: vjCancelReq, i: i, m: -1})
+			})
 		}
 	}
 	if nmsg > 0 {
